@@ -283,7 +283,7 @@ def oracle_case(arg):
 
 
 def run(ctx):
-    proof = core.prove(MODULES, leanchecker=ctx.thorough)
+    proof = core.prove(MODULES, extra_targets=["AdaptiveProofs.Examples.Balancing"], leanchecker=ctx.thorough)
     failures = []
     corr = core.Corr("BalancingLearner(SequenceLearner…)~Balancing.lean")
     cases = core.pmap(seq_case, [(ctx.rng.randrange(1 << 30), ctx.n(40, 90)) for _ in range(ctx.n(150, 3000))])
